@@ -237,9 +237,11 @@ theorem redacted_names_match_source :
      credNames.all (fun n => (Gen.redactedHeaderNames.map str).contains n)) = true := by decide
 
 /-- kinds of log-site arguments that go through `LoggableHTTPRequest` / `LoggableHTTPHeader` with the
-    server's `ShouldLogCredentials` (or with the flag left off) -/
+    server's `ShouldLogCredentials` (or with the flag left off). The extractor names the flag expression
+    semantically: `server-flag` = it reads a `.ShouldLogCredentials` field, directly, through a local variable or
+    through a parameter all of whose callers pass such an expression — whatever the variables are called. -/
 def wrappedKind (k : String) : Bool :=
-  k == "wrapped" || k == "wrapped-value" || k == "wrappedcred:shouldLogCredentials"
+  k == "wrapped" || k == "wrapped-value" || k == "wrappedcred:server-flag"
 
 /-- **all sites wrapped.** Every zap field under modules/caddyhttp/… whose argument is (computed from) an
     `*http.Request`, `http.Header`, `http.Response` or cookies goes through the loggable wrappers; the four
@@ -247,10 +249,10 @@ def wrappedKind (k : String) : Bool :=
     wrapper fed with another flag expression, changes the regenerated table and breaks this theorem. -/
 theorem all_sites_wrapped :
     Gen.logSitesScanComplete = true ∧ Gen.logSites.all (fun s => wrappedKind s.2.2) = true ∧
-    ([("caddyhttp.ServeHTTP", "request", "wrappedcred:shouldLogCredentials"),
-      ("caddyhttp.logRequest", "resp_headers", "wrappedcred:shouldLogCredentials"),
-      ("reverseproxy.reverseProxy", "request", "wrappedcred:shouldLogCredentials"),
-      ("reverseproxy.reverseProxy", "headers", "wrappedcred:shouldLogCredentials"),
+    ([("caddyhttp.ServeHTTP", "request", "wrappedcred:server-flag"),
+      ("caddyhttp.logRequest", "resp_headers", "wrappedcred:server-flag"),
+      ("reverseproxy.reverseProxy", "request", "wrappedcred:server-flag"),
+      ("reverseproxy.reverseProxy", "headers", "wrappedcred:server-flag"),
       ("rewrite.ServeHTTP", "request", "wrapped")].all fun s => Gen.logSites.contains s) = true := by decide
 
 /-! ## 3. field filters -/
